@@ -684,3 +684,53 @@ func (x *gen) ldsRBWRandom() {
 	}
 	x.ldsRBW(kind, x.r.Intn(8), x.r.Intn(8), extra, x.r.Chance(1, 3))
 }
+
+// ---------------------------------------------------------------- scalar re-read of device-written data
+
+// smemDev: a kernel whose IN buffer is the OUT buffer of the previous kernel
+// reads words of it with SCALAR loads (uniform address) and folds them into
+// its temporaries. In a chain K0 -> A, K1 -> B, K2 -> A, K3 -> B ... kernel i
+// reads what kernel i-1 stored, kernel i+1 overwrites it with vector stores,
+// kernel i+2 reads the same addresses again: whatever a scalar cache kept from
+// kernel i must not be served to kernel i+2. Reads the dump of the previous
+// kernel's temporaries (bytes 0..95 of a work-item's region: always stored).
+//
+//	w <= 0: drawn; off < 0: drawn; mode < 0: drawn (0 = the region of one fixed
+//	work-item slot, the same line for every work-group; 1 = the region of the
+//	work-group's first work-item)
+func (x *gen) smemDev(w, off, mode int) {
+	k := x.k
+	if !k.inPrev || k.lean {
+		return
+	}
+	if w <= 0 {
+		w = pick(x.r, []int{1, 2, 4, 8})
+	}
+	if off < 0 {
+		off = 4 * x.r.Intn((96-4*w)/4+1)
+	}
+	if mode < 0 {
+		mode = x.r.Intn(2)
+	}
+	dst := sLD + w*x.r.Intn(16/w)
+	if mode == 0 {
+		slot := 3
+		if slot >= k.l.slots() {
+			slot = 0
+		}
+		x.sload(w, dst, sIN, slot*k.iStr+k.iShift+off)
+	} else {
+		k.sop2(opSMulI32, g.S(sTMP+1), g.S(sBASE), immOrLit(k.iStr))
+		k.sop2(opSAddU32, g.S(sTMP+1), g.S(sTMP+1), immOrLit(k.iShift+off))
+		x.sloadS(w, dst, sIN, sTMP+1)
+	}
+	k.add(g.Waitcnt(15, 7, 0))
+	for j := 0; j < w; j++ {
+		x.foldS(dst + j)
+	}
+	x.use("smem_dev")
+	if x.mcount == nil {
+		x.mcount = map[string]int{}
+	}
+	x.mcount["motif|scalar-reread-of-kernel-written-data"]++
+}
